@@ -448,7 +448,7 @@ def gen_corpus(ctx, K, part, prop, keep_every=1):
         for line in open(r["out"], errors="replace"):
             if not line.startswith('"{'): continue
             rec = json.loads(json.loads(line))
-            w = tuple(rec["wire"])
+            w = bytes(rec["wire"])
             if w in seen: continue
             seen.add(w); n += 1
             if keep_every <= 1 or zlib.crc32(line.encode()) % keep_every == 0: f.write(json.dumps(rec["wire"]) + "\n")
@@ -645,7 +645,7 @@ def plan_C10(ctx):
         "arithmetic and states: exact value, or rejected / flagged / saturated as documented; each record is executed on the real "
         "code one-shot and with a cut inside the number.  Reply status codes: all 1000 codes in the C08 generator.")
     for pos in ("expires", "clen", "cseq", "cexpires", "port", "q"):
-        ctx.tlc("MC_Digits", simple_cfg("digits_%s.cfg" % pos, ["OffsMod = 65536", 'Pos = "%s"' % pos], ["Emit", "Arith"]), workers=4, min_records=100)
+        ctx.tlc("MC_Digits", simple_cfg("digits_%s.cfg" % pos, ["OffsMod = 65536", 'Pos = "%s"' % pos, "CutMax = %d" % (1 if ctx.quick else 40)], ["Emit", "Arith"]), workers=4, min_records=100)
     # URI port incl. digits before an '@' (password) and ports above 65535: PortExact is an invariant of MC_URI_port on the model;
     # every URI is executed on the real ParseURI; drifted and sampled real results are judged by TLC with PortExact
     for pcfg in ("MC_URI_port.cfg", "MC_URI_brk.cfg"):
